@@ -23,7 +23,7 @@ RULE = ("schemas over every field family including nested schemas, config-type f
         "inspect.signature(function) minus its first parameter, nothing is written to stdout (captured at file-"
         "descriptor level and through sys.stdout), schema fingerprint and configuration snapshot unchanged; "
         "non-trivial = >= 3 fields and (>= 1 method or virtual field or nested part); distinct = distinct schema")
-REQUIRED = ("decorated_methods_compared", "virtual_getters_with_string_annotations", "schemas_with_soft_keyword_names", "calls_without_class_name", "schemas_with_long_declaration", "input:nested-schema", "input:nested-config", "bare:empty", "bare:virtual", "bare:methods", "bare:both", "repeat_generations_compared", "dynamic_config_with_adhoc_field", "stubs_parsed", "attribute_sets_compared", "init_signatures_compared", "method_signatures_compared",
+REQUIRED = ("methods_registered_twice_compared", "input:nested-configtype", "decorated_methods_compared", "virtual_getters_with_string_annotations", "schemas_with_soft_keyword_names", "calls_without_class_name", "schemas_with_long_declaration", "input:nested-schema", "input:nested-config", "bare:empty", "bare:virtual", "bare:methods", "bare:both", "repeat_generations_compared", "dynamic_config_with_adhoc_field", "stubs_parsed", "attribute_sets_compared", "init_signatures_compared", "method_signatures_compared",
             "stdout_captures", "side_effect_checks", "input:schema", "input:config", "input:configtype",
             "methods_with_return_annotation", "schemas_with_configtype_field")
 ASSUMPTIONS = ["functions always name their first (configuration) parameter; positional-only parameters are not generated"]
@@ -78,7 +78,7 @@ def generate(rng, ctx):
     bare = rng.choice(["empty", "virtual", "methods", "both"]) if rng.random() < 0.12 else None
     if bare:
         schema["fields"] = []
-    extra = gen.pick_keys(rng, 9, avoid={ch["key"] for ch in schema["fields"]})
+    extra = gen.pick_keys(rng, 10, avoid={ch["key"] for ch in schema["fields"]})
     for _ in range(rng.choice([0, 1, 2]) if not bare else {"empty": 0, "virtual": 2, "methods": 0, "both": 1}[bare]):
         schema["fields"].insert(rng.randrange(len(schema["fields"]) + 1),
                                 {"kind": "field", "key": extra.pop(), "family": "virtual",
@@ -110,12 +110,19 @@ def generate(rng, ctx):
                 inner = {"kind": "field", "family": "list", "params": {}, "item": inner}
             schema["fields"].append(dict(inner, key=extra.pop()))
         schema["long_declaration"] = True
+    meths = [ch for ch in schema["fields"] if ch["kind"] == "field" and ch["family"] == "method" and not ch["params"].get("wrapped")]
+    if meths and extra and rng.random() < 0.3:
+        # stacked decorators: one function registered under a second name through what the first decoration returned
+        first = rng.choice(meths)
+        schema["fields"].append({"kind": "field", "key": extra.pop(), "family": "method",
+                                 "params": dict(first["params"], reuse_of=first["key"])})
     if rng.random() < 0.3 and not bare:
         modes = rng.choice([["development", "production"], ["a", "b"], ["test_1", "stage"]])
         schema["fields"].append({"kind": "field", "key": extra.pop(), "family": "appmode",
                                  "params": {"modes": modes, "create_helpers": True}})
     return {"schema": schema, "bare": bare, "name": rng.choice(["AppConfig", "Cfg", "T", "My_Config2"]),
-            "as": rng.choice(["schema", "config", "configtype", "nested-schema", "nested-config"]), "pick": rng.randrange(8)}
+            "as": rng.choice(["schema", "config", "configtype", "nested-schema", "nested-config", "nested-configtype"]),
+            "pick": rng.randrange(8)}
 
 
 def abbreviate(case):
@@ -188,7 +195,21 @@ def run(case, ctx, res):
             res.count("dynamic_config_with_adhoc_field")
         except Exception:
             pass
-    if case["as"] in ("nested-schema", "nested-config"):
+    if case["as"] == "nested-configtype":
+        # a configuration type made from a SECTION of the schema; the section gets another field afterwards
+        subs = [ch for ch in root["fields"] if ch["kind"] == "schema"]
+        if subs:
+            sub = subs[case.get("pick", 0) % len(subs)]
+            section = getattr(schema, sub["key"])
+            target, kw = cc.make_type(section, name, module="vf_types"), {}
+            if all(ch["key"] != "late_member" for ch in sub["fields"]):
+                section.late_member = cc.IntField(default=3)
+                sub["fields"].append({"kind": "field", "key": "late_member", "family": "int", "params": {"default": 3}})
+            root = sub
+            res.count("input:nested-configtype")
+        else:
+            target, kw = cc.make_type(schema, name, module="vf_types"), {}
+    elif case["as"] in ("nested-schema", "nested-config"):
         # a schema / configuration that is itself a section of another one: the stub is about the section
         subs = [ch for ch in root["fields"] if ch["kind"] == "schema"]
         if subs:
@@ -213,7 +234,7 @@ def run(case, ctx, res):
         res.count("methods_with_return_annotation")
     fp0 = c13.fingerprint(cc, schema)
     snap0 = Snapshot(cfg)
-    if case["as"] != "configtype":
+    if case["as"] not in ("configtype", "nested-configtype"):
         # a call that is rejected (no class name for a schema / configuration) has no side effect either
         with Capture() as cap0:
             try:
@@ -314,6 +335,8 @@ def run(case, ctx, res):
         sig = inspect.signature(glb["f"], follow_wrapped=False)
         if m["params"].get("wrapped"):
             res.count("decorated_methods_compared")
+        if m["params"].get("reuse_of"):
+            res.count("methods_registered_twice_compared")
         params = list(sig.parameters.values())[1:]
         want = {
             "pos": [p.name for p in params if p.kind == p.POSITIONAL_OR_KEYWORD],
